@@ -1107,13 +1107,16 @@ def stream_item(rng):
     if choice == 19:
         return [rng.choice(['bogus', 'metric', 'next-hop', 'route', 'nlri', 'withdraw', 'name', 'watchdog'])] + ([rng.choice(['x', '5', 'self'])] if rng.random() < 0.7 else [])
     if choice == 20:
-        n = rng.choice([300, 2000, 20000])
+        # (Communities.add is quadratic in the pinned tree: 4000 elements take 7 s to parse, so lists stay below that)
         kind = rng.choice(['community', 'large-community', 'as-path'])
         if kind == 'community':
+            n = rng.choice([300, 1100, 1800])
             return ['community', '['] + [f'{i % 65536}:{i // 65536}' for i in range(n)] + [']']
         if kind == 'large-community':
-            return ['large-community', '['] + [f'{i}:1:1' for i in range(n // 2)] + [']']
-        return ['as-path', '['] + [str(65000 + i) for i in range(min(n, 2000))] + [']']
+            n = rng.choice([100, 400, 900])
+            return ['large-community', '['] + [f'{i}:1:1' for i in range(n)] + [']']
+        n = rng.choice([255, 256, 300, 1100, 17000])
+        return ['as-path', '['] + [str(65000 + i % 500) for i in range(n)] + [']']
     return num(rng.choice(['med', 'label', 'path-information']), 'u32')
 
 
